@@ -27,7 +27,7 @@ ID = "C20"
 LEVEL = "exploration"
 RUNS = {"quick": 7000, "thorough": 250000}
 BUDGET = {"quick": 80, "thorough": 1800}
-RULE = ("one run = one fresh shared world + a seeded list of 2-32 operations from a 104-entry catalogue, executed by that many "
+RULE = ("one run = one fresh shared world + a seeded list of 2-32 operations from a 110-entry catalogue, executed by that many "
         "caller threads under one seeded schedule: sequential history | sweep1 (one pre-emption at a chosen line of the first "
         "operation, index-driven so that consecutive runs walk the pre-emption points) | PCT(d<=3) | random switching "
         "(p in 0.02..0.5), line granular, opcode granular inside the hot functions for a third of the runs; the thorough tier adds "
@@ -163,6 +163,10 @@ def prepare_inputs(w: World, label: str = "") -> None:
         i["jwt-jwe"] = jwt.encode({"alg": "A128KW", "enc": "A128GCM"}, {"sub": "carol", "n": 3}, ik["oct16"], registry=w.reg["jwe-all"])
         from joserfc import rfc7797 as _r7797
         i["7797json"] = _r7797.serialize_json({"protected": {"alg": "HS256", "b64": False, "crit": ["b64"]}}, "payload 7797 json", ik["oct"])
+        # tokens whose kid is the *peer's* name for the key (not the thumbprint, not a kid the key object carries)
+        i["es-peer-kid"] = jws.serialize_compact({"alg": "ES256", "kid": "partner-key-2024"}, b"payload-peer-kid", ik["ec"])
+        i["hs-peer-kid"] = jws.serialize_compact({"alg": "HS256", "kid": "shared-secret-7"}, b"payload-peer-kid-hs", ik["oct"])
+        i["ecdh-peer-kid"] = jwe.encrypt_compact({"alg": "ECDH-ES+A128KW", "enc": "A128CBC-HS256", "kid": "partner-key-2024"}, b"plain-peer-kid", ik["ec"])
         i["7797compact"] = _r7797.serialize_compact({"alg": "HS256", "b64": False, "crit": ["b64"]}, b"payload.7797", ik["oct"])
         i["hs-b64true"] = _r7797.serialize_compact({"alg": "HS256", "b64": True, "crit": ["b64"]}, b"payload-b64true", ik["oct"])
         fo = jwe.FlattenedJSONEncryption({"enc": "A128CBC-HS256"}, b"plain-flat", None, b"the aad")
@@ -378,6 +382,13 @@ def _ops():
     cons("sign-b64true-shared-plain-registry", lambda w: jws.serialize_compact(
         {"alg": "HS256", "b64": True, "crit": ["b64"]}, b"m-b64true", w.k["oct"], registry=w.reg["jws-all"]))
     cons("verify-hs-shared-plain-registry", lambda w: jws.deserialize_compact(w.inputs["hs"], w.k["oct"], registry=w.reg["jws-all"]).payload)
+    # a single key object handed over directly serves tokens whatever they call the key - before and after the object got its lazy kid
+    cons("verify-es-peer-kid", lambda w: jws.deserialize_compact(w.inputs["es-peer-kid"], w.p["ec"]).payload)
+    cons("verify-es-peer-kid-privkey", lambda w: jws.deserialize_compact(w.inputs["es-peer-kid"], w.k["ec"]).payload)
+    cons("verify-hs-peer-kid", lambda w: jws.deserialize_compact(w.inputs["hs-peer-kid"], w.k["oct"]).payload)
+    cons("dec-ecdh-peer-kid", lambda w: jwe.decrypt_compact(w.inputs["ecdh-peer-kid"], w.k["ec"]).plaintext)
+    O["sign-es256-peer-kid"] = (lambda w: jws.serialize_compact({"alg": "ES256", "kid": "partner-key-2024"}, b"m-es256", w.k["ec"]), "jws")
+    O["enc-ecdh-peer-kid"] = (lambda w: jwe.encrypt_compact({"alg": "ECDH-ES+A128KW", "enc": "A128CBC-HS256", "kid": "partner-key-2024"}, b"p-ecdh", w.p["ec"]), "jwe")
     # one any-recipient JWE registry object handed to compact and JSON decryption
     cons("dec-kw-any-registry", lambda w: jwe.decrypt_compact(w.inputs["kw"], w.k["oct16"], registry=w.reg["jwe-any"]).plaintext)
     cons("dec-kw-bad-any-registry", lambda w: jwe.decrypt_compact(w.inputs["kw-bad"], w.k["oct16"], registry=w.reg["jwe-any"]).plaintext)
@@ -467,6 +478,7 @@ def _material_for(w: World, name: str):
         "enc-a128kw": "oct16", "enc-dir": "oct", "enc-ecdh-ec": "ec", "enc-ecdh-x25519": "x", "enc-oaep": "rsa",
         "enc-gcmkw": "oct16", "enc-pbes2": "oct", "enc-set-random": "ec", "sign-shared-set": "ec2",
         "sign-shared-set-random": "oct16", "jwt-encode-jwe": "oct16", "sign-with-ops-restricted-key": "oct16",
+        "sign-es256-peer-kid": "ec", "enc-ecdh-peer-kid": "ec",
     }.get(name)
 
 
@@ -611,7 +623,7 @@ def later_calls(w: World) -> list[str]:
 STRATEGIES = ["sequential", "sweep1", "sweep1", "pct", "pct", "random", "random"]
 
 
-FAMILIES = [("plain-registry", ), ("any", ), ("hs", "7797", "general", "jwt-encode-jwe"), ("es256", "es384", "verify-es", "jwt-encode", "jwt-decode"), ("rs", "ps256"), ("ed", ),
+FAMILIES = [("plain-registry", ), ("any", ), ("peer-kid", "ensure-kid", "keyset-construct", "keyset-as-dict", "sign-es256-set"), ("hs", "7797", "general", "jwt-encode-jwe"), ("es256", "es384", "verify-es", "jwt-encode", "jwt-decode"), ("rs", "ps256"), ("ed", ),
             ("kw", "multi", "flat"), ("gcmkw", ), ("pbes2", ), ("ecdh", "xdh", "1pu"), ("1pu", ), ("oaep", ), ("dir", ), ("claims", ),
             ("set", "keyset"), ("ensure-kid", "as-dict", "thumbprint")]
 
